@@ -189,23 +189,39 @@ func (i *wrapIter) ValueBytes() []byte {
 }
 func (i *wrapIter) Close() (err error) { i.via(func() { err = i.it.Close() }); return }
 
-// Stores are opened, reopened and closed, and all their operations run, on a
-// goroutine outside the synctest bubble of a history.
+// Stores are opened, reopened and closed, and all their operations run, on
+// goroutines outside the synctest bubble of a history: a dispatcher started at
+// init spawns one goroutine per operation (an operation may block inside the
+// store, e.g. on sqlite's one-iterator gate, until another one finishes).
+// Reply channels are made outside the bubble too (a bubbled channel must not
+// be touched from outside).
+type svcCall struct {
+	f     func()
+	reply chan struct{}
+}
+
 var (
-	svcReq   = make(chan func())
-	svcReply = make(chan struct{})
+	svcReq    = make(chan svcCall)
+	replyPool = make(chan chan struct{}, 256)
 )
 
 func init() {
+	for i := 0; i < cap(replyPool); i++ {
+		replyPool <- make(chan struct{}, 1)
+	}
 	go func() {
-		for f := range svcReq {
-			f()
-			svcReply <- struct{}{}
+		for c := range svcReq {
+			go func() {
+				c.f()
+				c.reply <- struct{}{}
+			}()
 		}
 	}()
 }
 
 func outside(f func()) {
-	svcReq <- f
-	<-svcReply
+	r := <-replyPool
+	svcReq <- svcCall{f, r}
+	<-r
+	replyPool <- r
 }
